@@ -115,9 +115,12 @@ theorem flushSendTail_cost (c : Chan) : Cost c (flushSendTail c) 0 := by
       have h1 := emit_sendPkt c .eof
       simp only [R.ok, pot, hs, phiS, wMsg] at *
       omega
-    · have h1 := closeSend_cost c
-      unfold Cost at h1
-      omega
+    · rename_i hs
+      have h1 := emit_sendPkt c .eof
+      have h2 := emit_sendPkt c .close
+      have h3 := emit_sendPkt { c with sendEofPending := false } .close
+      simp only [closeSendEof, closeSend]
+      (repeat' split) <;> simp_all [R.ok, R.pre, pot, emit_append, phiS, wMsg] <;> omega
     · simp only [R.ok, emit_nil]; omega
   · simp only [R.ok, emit_nil]; omega
 
@@ -606,7 +609,10 @@ theorem flushSendTail_hfx (c : Chan) : HFx c (flushSendTail c) := by
       · intro _ _ h2; simp [R.ok] at h2
       · intro h1 h2; exact absurd h2 h1
       · intro hp; simp [R.ok, schedCount_sendPkt] at hp
-    · exact closeSend_hfx _
+    · simp only [closeSendEof]
+      split
+      · exact hfx_pre _ (schedCount_sendPkt _ _) ((closeSend_hfx _).cast rfl rfl rfl rfl rfl rfl)
+      · exact closeSend_hfx _
     · exact hfx_refl _
   · exact hfx_refl _
 
@@ -842,7 +848,7 @@ theorem close_hfx (c : Chan) : HFx c (close c) := by
   refine hfx_andThen ?_ ?_
   · split
     · rename_i hs
-      have := flushSendBuf_hfx { c with sendSt := .closePending }
+      have := flushSendBuf_hfx { c with sendEofPending := decide (c.sendSt = .eofPending), sendSt := .closePending }
       refine ⟨?_, ?_, this.recvMono, this.recvClosed, ?_, this.sched, this.sched', this.core⟩
       · intro ⟨h1, h4⟩
         exact this.linv ⟨by intro h; have := h1 h; simp_all, fun _ => h4 (by simp_all)⟩
@@ -908,7 +914,10 @@ theorem flushSendTail_keep (c : Chan) : RecvKeep c (flushSendTail c) := by
   split
   · split
     · exact ⟨rfl, Nat.le_refl _⟩
-    · exact closeSend_keep c
+    · simp only [closeSendEof]
+      split
+      · exact closeSend_keep { c with sendEofPending := false }
+      · exact closeSend_keep c
     · exact ⟨rfl, Nat.le_refl _⟩
   · exact ⟨rfl, Nat.le_refl _⟩
 
@@ -1071,7 +1080,7 @@ theorem close_d3 (c : Chan) (h : D3 c) : D3 (close c).c := by
   unfold close
   refine d3_andThen ?_ ?_
   · split
-    · exact d3_of_keep (r := flushSendBuf _) (c := { c with sendSt := .closePending }) (flushSendBuf_keep _) h
+    · exact d3_of_keep (r := flushSendBuf _) (c := { c with sendEofPending := decide (c.sendSt = .eofPending), sendSt := .closePending }) (flushSendBuf_keep _) h
     · exact h
   · intro c' hc'
     split
